@@ -11,6 +11,8 @@ Local Open Scope Z_scope.
 Lemma config_as_modelled :
   h_rehandshakes_enabled = false /\ h_ocsp_must_staple = true /\ h_stateless_tickets = true /\ h_psk_and_dhe_suites = true.
 Proof. repeat split; reflexivity. Qed.
+Lemma no_empty_client_cert : h_server_accepts_empty_client_cert = false.
+Proof. reflexivity. Qed.
 
 (* ------------------------------------------------------------------ deciders for the grammar *)
 Definition mk_eqb (a b : mk) : bool :=
@@ -34,9 +36,10 @@ Definition res_none (md : mode) : bool := match md_res md with ResNone => true |
 
 (* every flow of the grammar without post-handshake NewSessionTickets, by enumeration of the optional parts *)
 Definition flows12_full (md : mode) : list (list (side * mk)) :=
-  let cstats := [] :: (if md_ocsp md && negb (is_psk (md_kex md)) then [[KHs CSTAT]] else []) in
+  let cstats := (if h_ocsp_must_staple && md_ocsp md && negb (is_psk (md_kex md)) then [] else [[]]) ++
+                (if md_ocsp md && negb (is_psk (md_kex md)) then [[KHs CSTAT]] else []) in
   let skes := match md_kex md with KexRSA => [[]] | KexECDHE => [[KHs SKE]] | KexDHEPSK => [[KHs SKE]] | KexPSK => [[]; [KHs SKE]] end in
-  let tails := [([], []); ([KHs CREQ], [KHs CERT]); ([KHs CREQ], [KHs CERT; KHs CVFY])] in
+  let tails := ([], []) :: (if h_server_accepts_empty_client_cert then [([KHs CREQ], [KHs CERT])] else []) ++ [([KHs CREQ], [KHs CERT; KHs CVFY])] in
   flat_map (fun cstat => flat_map (fun ske => map (fun cc : list mk * list mk =>
      let (creq, ccv) := cc in
      msgs_of Cl [KHs CH] ++
@@ -46,7 +49,7 @@ Definition flows12_full (md : mode) : list (list (side * mk)) :=
 Definition flow12_abbr (md : mode) : list (side * mk) :=
   msgs_of Cl [KHs CH] ++ msgs_of Sv ([KHs SH] ++ when (md_newticket md) [KHs NST] ++ [KCcs; KHs FIN]) ++ msgs_of Cl [KCcs; KHs FIN].
 Definition flows13 (md : mode) (nsts : list mk) : list (list (side * mk)) :=
-  let tails := ([], []) :: (if negb (res_yes md) then [([KHs CREQ], [KHs CERT]); ([KHs CREQ], [KHs CERT; KHs CVFY])] else []) in
+  let tails := ([], []) :: (if negb (res_yes md) then (if h_server_accepts_empty_client_cert then [([KHs CREQ], [KHs CERT])] else []) ++ [([KHs CREQ], [KHs CERT; KHs CVFY])] else []) in
   map (fun cc : list mk * list mk =>
      let (creq, ccv) := cc in
      msgs_of Cl [KHs CH] ++ when (md_hrr md) (msgs_of Sv [KHs SH] ++ msgs_of Cl [KHs CH]) ++
@@ -234,6 +237,15 @@ Proof.
   apply Z.eqb_eq in E. subst. constructor; auto.
 Qed.
 
+Lemma tail_cases creq ccv :
+  In (creq, ccv) ((if h_server_accepts_empty_client_cert then [([KHs CREQ], [KHs CERT])] else []) ++ [([KHs CREQ], [KHs CERT; KHs CVFY])]) ->
+  creq = [KHs CREQ] /\ (ccv = [KHs CERT; KHs CVFY] \/ (ccv = [KHs CERT] /\ h_server_accepts_empty_client_cert = true)).
+Proof.
+  intro H. apply in_app_or in H. destruct H as [H | [H | []]].
+  - destruct h_server_accepts_empty_client_cert; [|destruct H]. destruct H as [H | []]. inversion H; subst. auto.
+  - inversion H; subst. auto.
+Qed.
+
 Lemma flows_sound md nsts f : Forall (fun k => k = KHs NST) nsts -> In f (flows md nsts) -> flow md f.
 Proof.
   intros Hn Hin. unfold flows in Hin. destruct (md_v13 md) eqn:V.
@@ -242,15 +254,14 @@ Proof.
     + inversion Hc; subst. apply (Flow13 md [] [] nsts); auto.
       * left; reflexivity.
       * intro C; exfalso; apply C; reflexivity.
+      * intro C; exfalso; apply C; reflexivity.
     + assert (R : negb (res_yes md) = true) by (destruct (negb (res_yes md)); [reflexivity | destruct Hc]).
-      rewrite R in Hc.
-      destruct Hc as [Hc | [Hc | []]]; inversion Hc; subst.
-      * apply (Flow13 md [KHs CREQ] [KHs CERT] nsts); auto.
-        -- right; split; [exact R | reflexivity].
-        -- discriminate.
-      * apply (Flow13 md [KHs CREQ] [KHs CERT; KHs CVFY] nsts); auto.
-        -- right; split; [exact R | reflexivity].
-        -- discriminate.
+      rewrite R in Hc. apply tail_cases in Hc. destruct Hc as [Hq Hv]. subst creq.
+      apply (Flow13 md [KHs CREQ] ccv nsts); auto.
+      * right; split; [exact R | reflexivity].
+      * discriminate.
+      * intros _. destruct Hv as [Hv | [Hv _]]; auto.
+      * intros _ E. destruct Hv as [Hv | [_ Hv]]; [exact Hv | congruence].
   - apply in_app_or in Hin. destruct Hin as [Hin | Hin].
     + destruct (res_yes md) eqn:R; [destruct Hin|].
       unfold flows12_full in Hin.
@@ -259,9 +270,16 @@ Proof.
       apply in_map_iff in Hin. destruct Hin as [[creq ccv] [Hf Hc]]. subst f.
       assert (Hres : md_res md <> ResYes) by (unfold res_yes in R; destruct (md_res md); congruence).
       assert (Hcstat : optional (md_ocsp md && negb (is_psk (md_kex md))) [KHs CSTAT] cstat).
-      { destruct Hcs as [Hcs | Hcs]; [left; auto|].
-        destruct (md_ocsp md && negb (is_psk (md_kex md))); [|destruct Hcs].
-        destruct Hcs as [Hcs | []]. right; split; auto. }
+      { apply in_app_or in Hcs. destruct Hcs as [Hcs | Hcs].
+        - destruct (h_ocsp_must_staple && md_ocsp md && negb (is_psk (md_kex md))); [destruct Hcs|].
+          destruct Hcs as [Hcs | []]. left; auto.
+        - destruct (md_ocsp md && negb (is_psk (md_kex md))); [|destruct Hcs].
+          destruct Hcs as [Hcs | []]. right; split; auto. }
+      assert (Hmust : h_ocsp_must_staple && md_ocsp md && negb (is_psk (md_kex md)) = true -> cstat = [KHs CSTAT]).
+      { intro M. apply in_app_or in Hcs. destruct Hcs as [Hcs | Hcs].
+        - rewrite M in Hcs. destruct Hcs.
+        - destruct (md_ocsp md && negb (is_psk (md_kex md))); [|destruct Hcs].
+          destruct Hcs as [Hcs | []]. auto. }
       assert (Hske : match md_kex md with
                      | KexRSA => ske = [] | KexECDHE => ske = [KHs SKE] | KexDHEPSK => ske = [KHs SKE]
                      | KexPSK => optional true [KHs SKE] ske end).
@@ -270,16 +288,17 @@ Proof.
         - destruct Hsk as [H | []]; auto.
         - destruct Hsk as [H | [H | []]]; [left | right]; auto.
         - destruct Hsk as [H | []]; auto. }
-      destruct Hc as [Hc | [Hc | [Hc | []]]]; inversion Hc; subst.
-      * apply (Flow12Full md cstat ske [] []); auto.
+      destruct Hc as [Hc | Hc].
+      * inversion Hc; subst. apply (Flow12Full md cstat ske [] []); auto.
         -- left; reflexivity.
         -- intro C; exfalso; apply C; reflexivity.
-      * apply (Flow12Full md cstat ske [KHs CREQ] [KHs CERT]); auto.
+        -- intro C; exfalso; apply C; reflexivity.
+      * apply tail_cases in Hc. destruct Hc as [Hq Hv]. subst creq.
+        apply (Flow12Full md cstat ske [KHs CREQ] ccv); auto.
         -- right; split; reflexivity.
         -- discriminate.
-      * apply (Flow12Full md cstat ske [KHs CREQ] [KHs CERT; KHs CVFY]); auto.
-        -- right; split; reflexivity.
-        -- discriminate.
+        -- intros _. destruct Hv as [Hv | [Hv _]]; auto.
+        -- intros _ E. destruct Hv as [Hv | [_ Hv]]; [exact Hv | congruence].
     + destruct (res_none md) eqn:R; [destruct Hin|].
       destruct Hin as [Hin | []]. subst f. apply Flow12Abbr; auto.
       unfold res_none in R; destruct (md_res md); congruence.
